@@ -34,6 +34,11 @@ pub struct EyeCase {
     /// statements go (full deadline, same pacing)
     #[serde(default)]
     pub reuse: Option<u16>,
+    /// how the candidates reach the set: 0 `push` one by one, 1 one `extend` call, 2 the first half
+    /// pushed and the rest extended; +4: the set is awaited through its `IntoFuture` impl instead of
+    /// `finish()` - every public way in and out obeys the same statements
+    #[serde(default)]
+    pub feed: u8,
 }
 
 #[derive(Debug, PartialEq, Clone)]
@@ -222,9 +227,10 @@ pub async fn run_impl(c: &EyeCase) -> Observed {
         tokio::time::sleep(Duration::from_millis(pause as u64)).await;
     }
     let t0 = Instant::now();
+    let mut futs: Vec<AttFut> = vec![];
     for (i, (o, lat)) in c.atts.iter().cloned().enumerate() {
         let obs = obs.clone();
-        set.push(Box::pin(async move {
+        futs.push(Box::pin(async move {
             {
                 let mut ob = obs.lock().unwrap();
                 let s = ob.seq;
@@ -250,8 +256,27 @@ pub async fn run_impl(c: &EyeCase) -> Observed {
             }
         }) as AttFut);
     }
+    match c.feed % 4 {
+        1 => set.extend(futs),
+        2 => {
+            let rest = futs.split_off(futs.len() / 2);
+            for f in futs {
+                set.push(f);
+            }
+            set.extend(rest);
+        }
+        _ => {
+            for f in futs {
+                set.push(f);
+            }
+        }
+    }
     // a virtual guard far beyond every latency/deadline turns "never completes" into an observation
-    let r = tokio::time::timeout(Duration::from_secs(3600), set.finish()).await;
+    let r = if c.feed & 4 != 0 {
+        tokio::time::timeout(Duration::from_secs(3600), std::future::IntoFuture::into_future(set)).await
+    } else {
+        tokio::time::timeout(Duration::from_secs(3600), set.finish()).await
+    };
     let t = t0.elapsed().as_millis() as u64;
     let ob = obs.lock().unwrap();
     let starts = ob.starts.clone();
@@ -496,7 +521,7 @@ pub fn exhaustive(max_n: usize, lats: &[u64]) -> Vec<EyeCase> {
             for d in DELAYS {
                 for t in TIMEOUTS {
                     for conc in std::iter::once(None).chain((0..=n).map(Some)) {
-                        out.push(EyeCase { atts: atts.clone(), delay: d, timeout: t, conc, reuse: None });
+                        out.push(EyeCase { atts: atts.clone(), delay: d, timeout: t, conc, reuse: None, feed: ((out.len() / 3) % 8) as u8 });
                     }
                 }
             }
@@ -542,6 +567,6 @@ pub fn random_strategy(max_n: usize, offgrid: bool) -> impl proptest::strategy::
     (proptest::collection::vec(att, 0..=max_n), delay, timeout, prop_oneof![1 => Just(None), 3 => (0usize..=max_n).prop_map(Some)])
         .prop_map(|(atts, delay, timeout, conc)| {
             let n = atts.len();
-            EyeCase { atts, delay, timeout, conc: conc.map(|c| c.min(n)), reuse: None }
+            EyeCase { atts, delay, timeout, conc: conc.map(|c| c.min(n)), reuse: None, feed: 0 }
         })
 }
